@@ -300,3 +300,141 @@ fn w_empty() {
     core::mem::forget(r);
     core::mem::forget(p);
 }
+
+// ---------------------------------------------------------------------------------------
+// Per-version entry points (the functions the chain harnesses model): real code.
+// Decides what the W models assume: on success `remaining` is exactly the bytes after the
+// packet's header-implied end, on failure the error is Partial with the right version.
+
+fn rem_is_suffix(rem: &Vec<u8>, b: &[u8], from: usize) {
+    assert!(rem.len() == b.len() - from);
+    let j: usize = kani::any();
+    if j < rem.len() {
+        assert!(rem[j] == b[from + j]);
+    }
+}
+
+/// IPFixParser::parse on a message with no decodable set, message length written (one
+/// harness per length), 6 trailing bytes.  remaining must start right after
+/// max(length,16) (C02, C11: no skipping, no alignment), error iff the window exceeds the
+/// buffer (C14).
+macro_rules! wr_ipfix_entry {
+    ($name:ident, $length:expr) => {
+        #[kani::proof]
+        #[kani::stub(core::fmt::write, no_fmt)]
+        fn $name() {
+            const N: usize = 14 + 6 + 6;
+            let mut b: [u8; N] = kani::any();
+            let length: u16 = $length;
+            put16(&mut b, 0, length);
+            // a set inside the window is a data set for an id nobody defined => not decoded
+            b[14] = 1;
+            b[15] = 44;
+            let mut p = ipfix::IPFixParser::default();
+            let r = p.parse(&b);
+            let win = if length < 16 { 0 } else { (length - 16) as usize };
+            match &r {
+                Ok(pn) => {
+                    assert!(14 + win <= N);
+                    rem_is_suffix(&pn.remaining, &b, 14 + win);
+                    match &pn.result {
+                        NetflowPacket::IPFix(m) => assert!(m.header.length == length && m.flowsets.len() == 0),
+                        _ => assert!(false),
+                    }
+                }
+                Err(e) => {
+                    assert!(14 + win > N);
+                    match e {
+                        NetflowParseError::Partial(pp) => assert!(pp.version == 10),
+                        _ => assert!(false),
+                    }
+                }
+            }
+            assert!(p.templates.len() == 0 && p.options_templates.len() == 0);
+            core::mem::forget(r);
+            core::mem::forget(p);
+        }
+    };
+}
+wr_ipfix_entry!(wr_ipfix_entry_16, 16);
+wr_ipfix_entry!(wr_ipfix_entry_17, 17);
+wr_ipfix_entry!(wr_ipfix_entry_22, 22);
+wr_ipfix_entry!(wr_ipfix_entry_3, 3);
+wr_ipfix_entry!(wr_ipfix_entry_29, 29);
+
+/// V9Parser::parse on a packet whose count (written 0, 1 or 2) exceeds the flowsets present:
+/// header only, then 0..=3 stray bytes, then nothing.  Stray bytes are not a flowset: the
+/// packet is an error (never silently absorbed) unless nothing follows the header.
+macro_rules! wr_v9_entry {
+    ($name:ident, $count:expr, $stray:expr) => {
+        #[kani::proof]
+        #[kani::stub(core::fmt::write, no_fmt)]
+        fn $name() {
+            const N: usize = 18 + $stray;
+            let mut b: [u8; N] = kani::any();
+            put16(&mut b, 0, $count);
+            let mut p = v9::V9Parser::default();
+            let r = p.parse(&b);
+            match &r {
+                Ok(pn) => {
+                    // C02: what is not consumed is handed back
+                    assert!($count == 0 || $stray == 0);
+                    rem_is_suffix(&pn.remaining, &b, 18);
+                    match &pn.result {
+                        NetflowPacket::V9(m) => assert!(m.flowsets.len() == 0 && m.header.sys_up_time == be32(&b, 2)),
+                        _ => assert!(false),
+                    }
+                }
+                Err(e) => {
+                    assert!($count > 0 && $stray > 0);
+                    match e {
+                        NetflowParseError::Partial(pp) => assert!(pp.version == 9),
+                        _ => assert!(false),
+                    }
+                }
+            }
+            core::mem::forget(r);
+            core::mem::forget(p);
+        }
+    };
+}
+wr_v9_entry!(wr_v9_entry_c0_s3, 0, 3);
+wr_v9_entry!(wr_v9_entry_c2_s0, 2, 0);
+wr_v9_entry!(wr_v9_entry_c2_s2, 2, 2);
+wr_v9_entry!(wr_v9_entry_c1_s3, 1, 3);
+
+/// V5Parser::parse / V7Parser::parse: count written 0 or 1, 3 trailing bytes.
+macro_rules! wr_fixed_entry {
+    ($name:ident, $parser:path, $variant:ident, $ver:expr, $rec:expr, $count:expr, $cut:expr) => {
+        #[kani::proof]
+        #[kani::stub(core::fmt::write, no_fmt)]
+        fn $name() {
+            const N: usize = 22 + $rec * $count + 3 - $cut;
+            let mut b: [u8; N] = kani::any();
+            put16(&mut b, 0, $count);
+            let r = <$parser>::parse(&b);
+            match &r {
+                Ok(pn) => {
+                    assert!($cut <= 3);
+                    rem_is_suffix(&pn.remaining, &b, 22 + $rec * $count);
+                    match &pn.result {
+                        NetflowPacket::$variant(m) => assert!(m.flowsets.len() == $count && m.header.sys_up_time == be32(&b, 2)),
+                        _ => assert!(false),
+                    }
+                }
+                Err(e) => {
+                    assert!($cut > 3);
+                    match e {
+                        NetflowParseError::Partial(pp) => assert!(pp.version == $ver),
+                        _ => assert!(false),
+                    }
+                }
+            }
+            core::mem::forget(r);
+        }
+    };
+}
+wr_fixed_entry!(wr_v5_entry_1, v5::V5Parser, V5, 5, 48, 1, 0);
+wr_fixed_entry!(wr_v5_entry_1_cut, v5::V5Parser, V5, 5, 48, 1, 4);
+wr_fixed_entry!(wr_v7_entry_1, v7::V7Parser, V7, 7, 52, 1, 0);
+wr_fixed_entry!(wr_v7_entry_0, v7::V7Parser, V7, 7, 52, 0, 0);
